@@ -75,6 +75,108 @@ pub fn gen_family(rng: &mut Rng, idx: usize, fpool: &[f64]) -> MF {
     MF { name, help, typ, metrics }
 }
 
+/// The same families with exactly one detail changed in each (one label name, one label value, the
+/// help, one value, one bucket bound, one cumulative count, the count, the sum, one quantile, the
+/// timestamp): whatever an encoder remembers from the previous call must not leak into this one.
+fn siblings(rng: &mut Rng, mfs: &[MF], fpool: &[f64]) -> Vec<MF> {
+    let mut out = mfs.to_vec();
+    for f in out.iter_mut() {
+        let mi = rng.usize_below(f.metrics.len().max(1));
+        for _attempt in 0..6 {
+            let before = format!("{:?}", f);
+            match rng.below(10) {
+                0 => {
+                    // rename one label (in every sample of the family)
+                    if let Some(old) = f.metrics.first().and_then(|m| m.labels.first()).map(|l| l.0.clone()) {
+                        let new = format!("{}_r", old);
+                        if !f.metrics.iter().any(|m| m.labels.iter().any(|l| l.0 == new)) {
+                            for m in f.metrics.iter_mut() {
+                                for l in m.labels.iter_mut() {
+                                    if l.0 == old {
+                                        l.0 = new.clone();
+                                    }
+                                }
+                            }
+                        }
+                    }
+                }
+                1 => {
+                    if let Some(l) = f.metrics.get_mut(mi).and_then(|m| m.labels.last_mut()) {
+                        l.1.push('x');
+                    }
+                }
+                2 => f.help.push_str(" (2)"),
+                3 => {
+                    if let Some(m) = f.metrics.get_mut(mi) {
+                        m.ts = m.ts.wrapping_add(1);
+                    }
+                }
+                4 => {
+                    if let Some(m) = f.metrics.get_mut(mi) {
+                        let v = pools::any_f64(rng, fpool);
+                        if m.counter.is_some() {
+                            m.counter = Some(v);
+                        } else if m.gauge.is_some() {
+                            m.gauge = Some(v);
+                        }
+                    }
+                }
+                5 => {
+                    if let Some(h) = f.metrics.get_mut(mi).and_then(|m| m.hist.as_mut()) {
+                        if !h.buckets.is_empty() {
+                            let i = rng.usize_below(h.buckets.len());
+                            h.buckets[i].0 = pools::any_f64(rng, fpool);
+                        }
+                    }
+                }
+                6 => {
+                    if let Some(h) = f.metrics.get_mut(mi).and_then(|m| m.hist.as_mut()) {
+                        if !h.buckets.is_empty() {
+                            let i = rng.usize_below(h.buckets.len());
+                            h.buckets[i].1 = h.buckets[i].1.wrapping_add(1);
+                        }
+                    }
+                }
+                7 => {
+                    if let Some(m) = f.metrics.get_mut(mi) {
+                        if let Some(h) = m.hist.as_mut() {
+                            h.count = h.count.wrapping_add(1);
+                        } else if let Some(q) = m.summ.as_mut() {
+                            q.count = q.count.wrapping_add(1);
+                        }
+                    }
+                }
+                8 => {
+                    if let Some(m) = f.metrics.get_mut(mi) {
+                        let v = pools::any_f64(rng, fpool);
+                        if let Some(h) = m.hist.as_mut() {
+                            h.sum = v;
+                        } else if let Some(q) = m.summ.as_mut() {
+                            q.sum = v;
+                        }
+                    }
+                }
+                _ => {
+                    if let Some(q) = f.metrics.get_mut(mi).and_then(|m| m.summ.as_mut()) {
+                        if !q.quantiles.is_empty() {
+                            let i = rng.usize_below(q.quantiles.len());
+                            if rng.chance(1, 2) {
+                                q.quantiles[i].0 = pools::any_f64(rng, fpool);
+                            } else {
+                                q.quantiles[i].1 = pools::any_f64(rng, fpool);
+                            }
+                        }
+                    }
+                }
+            }
+            if format!("{:?}", f) != before {
+                break;
+            }
+        }
+    }
+    out
+}
+
 pub fn run_case(cx: &mut Ctx) {
     let mut rng = Rng::derive(cx.seed, cx.case.wrapping_mul(2).wrapping_add(0xC04));
     let fpool = pools::float_pool();
@@ -138,6 +240,13 @@ pub fn run_case(cx: &mut Ctx) {
     cx.part.count("hand_built_families", nf as u64);
     if cx.owns("C04") {
         text_roundtrip(cx, &mfs, &pmfs, "hand-built");
+        if cx.case % 40 != 7 && rng.chance(1, 2) {
+            let sib = siblings(&mut rng, &mfs, &fpool);
+            let psib: Vec<prometheus::proto::MetricFamily> = sib.iter().map(build).collect();
+            cx.part.count("sibling_families_encoded_right_after", sib.len() as u64);
+            text_roundtrip(cx, &sib, &psib, "sibling-of-hand-built");
+            text_roundtrip(cx, &mfs, &pmfs, "hand-built-again");
+        }
         // error path: a refused family later in the slice. Whatever the encoder does with the families
         // before it, it may only append, and the entry points must agree.
         let mut bad = mfs.clone();
@@ -162,6 +271,13 @@ pub fn run_case(cx: &mut Ctx) {
     }
     if cx.owns("C13") {
         pb_roundtrip(cx, &mfs, &pmfs, "hand-built");
+        if cx.case % 40 != 7 && rng.chance(1, 2) {
+            let sib = siblings(&mut rng, &mfs, &fpool);
+            let psib: Vec<prometheus::proto::MetricFamily> = sib.iter().map(build).collect();
+            cx.part.count("sibling_families_encoded_right_after", sib.len() as u64);
+            pb_roundtrip(cx, &sib, &psib, "sibling-of-hand-built");
+            pb_roundtrip(cx, &mfs, &pmfs, "hand-built-again");
+        }
         // a family without a name or without samples is refused, and nothing of it is written
         let mut bad = mfs.clone();
         let pos = rng.usize_below(bad.len());
